@@ -1,5 +1,5 @@
 SPECIFICATION Spec
-CONSTANTS MaxFeat = 2 MaxRows = 2 MaxProt = 3 Mut_EndOffByOne = FALSE Mut_KeepDD = FALSE Mut_ValidSkipsDD = FALSE
+CONSTANTS ProtSep = ":" MaxFeat = 2 MaxRows = 2 MaxProt = 3 Mut_EndOffByOne = FALSE Mut_KeepDD = FALSE Mut_ValidSkipsDD = FALSE
 INVARIANT InputsInDomain
 INVARIANT ConvertIsDef
 INVARIANT SameHeaderInv
